@@ -600,6 +600,17 @@ func runC19(c *run.Ctx) {
 					}
 					payload = sl
 					hist = append(hist, fmt.Sprintf("publish topic=%s event=slice of %d", topic, len(sl)))
+				} else if r.Intn(8) == 0 {
+					// "nothing" is published: a nil, or a nil pointer of the event's Go type. Every matching subscriber gets
+					// its one message (null), is counted, and fails or not as planned
+					ev.badN = false
+					leafMsg = "null"
+					payload = nil
+					if r.Intn(2) == 0 {
+						payload = (*subEvent)(nil)
+					}
+					hist = append(hist, fmt.Sprintf("publish topic=%s event=%T(nil)", topic, payload))
+					c.Count("publishes_of_a_nil_event", 1)
 				} else {
 					hist = append(hist, fmt.Sprintf("publish topic=%s event=%s n-is-no-Int=%v", topic, ev.id, ev.badN))
 				}
